@@ -72,7 +72,10 @@ _vid = itertools.count(1)
 _vlock = threading.Lock()
 
 
-def _check_units(kind, units, strict, tag):
+MAX_REJECTIONS = 6         # per TLC batch; further rejections are counted, not examined
+
+
+def _check_units(kind, units, strict, tag, leak=False):
     """One TLC invocation over the concatenation of `units` (each a list of lines)."""
     module = {"compress": "TraceCompress", "expand": "TraceExpand"}[kind]
     with _vlock:
@@ -83,20 +86,39 @@ def _check_units(kind, units, strict, tag):
         for _, lines, _t in units:
             f.write('{"e":"Reset"}\n')
             f.writelines(lines)
-    return vlib.validate_trace(module, p, strict=strict, tag="%s_%s_%d" % (tag, kind, n))
+    v = vlib.validate_trace(module, p, strict=strict, tag="%s_%s_%d" % (tag, kind, n), leak=leak)
+    os.unlink(p)
+    return v
 
 
-def _bisect(kind, units, strict, tag):
-    v = _check_units(kind, units, strict, tag)
-    if v.accepted:
-        return [(u, None) for u in units]
-    if len(units) == 1:
-        return [(units[0], v)]
-    h = len(units) // 2
-    return _bisect(kind, units[:h], strict, tag) + _bisect(kind, units[h:], strict, tag)
+def _culprits(kind, units, strict, tag, leak):
+    """Validate a batch; on rejection the number of consumed events identifies the unit that
+    is rejected: record it, drop it, validate the rest again."""
+    out = []
+    rest = list(units)
+    while rest:
+        v = _check_units(kind, rest, strict, tag, leak)
+        if v.accepted:
+            out += [(u, None) for u in rest]
+            break
+        # v.matched = events consumed; find the unit containing event number matched+1
+        m = v.matched - (1 if "TraceInv" in v.tlc.violated else 0)
+        pos, idx = 0, len(rest) - 1
+        for i, u in enumerate(rest):
+            pos += 1 + len(u[1])
+            if m < pos:
+                idx = i
+                break
+        out += [(u, None) for u in rest[:idx]]
+        out.append((rest[idx], v))
+        rest = rest[idx + 1:]
+        if sum(1 for _, x in out if x is not None) >= MAX_REJECTIONS:
+            out += [(u, "unexamined") for u in rest]
+            break
+    return out
 
 
-def validate(traced_list, rep, strict=True, tag="tv"):
+def validate(traced_list, rep, strict=True, tag="tv", leak=False):
     """Validate the traces of the given runs against TraceCompress / TraceExpand.
     Returns a list of rejections (Traced, layer, reason, lines); layer is "property" when
     the trace is rejected even without the scheduling-policy conjuncts, else "policy"."""
@@ -128,17 +150,20 @@ def validate(traced_list, rep, strict=True, tag="tv"):
             n += len(u[1]) + 1
         if batch:
             jobs.append((kind, batch))
-    results = parallel(lambda j: (j[0], _bisect(j[0], j[1], strict, tag)), jobs, par=max(1, vlib.NCPU // 2))
+    results = parallel(lambda j: (j[0], _culprits(j[0], j[1], strict, tag, leak)), jobs, par=max(1, vlib.NCPU // 2))
     rejections = []
     for kind, res in results:
         for u, v in res:
+            if v == "unexamined":
+                rep.add("traces_unexamined_after_rejections")
+                continue
             rep.add("traces_validated_against_impl")
             rep.add("trace_events", len(u[1]))
             if v is None:
                 continue
             layer, reason = "policy", v.reason
             if strict:
-                v2 = _check_units(kind, [u], False, tag)
+                v2 = _check_units(kind, [u], False, tag, leak)
                 if not v2.accepted:
                     layer, reason = "property", v2.reason
             else:
